@@ -701,8 +701,20 @@ def run(ctx):
     # divergences impl != model
     viol = 0
     unexplained = []
+    ctx.coverage["token_spec_oracle"] = ("on every impl/model divergence the extracted Spec04t functions (tk_*) decide; "
+                                         "model == token spec and impl != token spec -> VIOLATION divergence with replay")
     for i in divergences[:50]:
         a = reqs[i].split()
+        # Spec verdict for the token operations (T04_tokens): the functions of Spec04t.v evaluated on the remaining characters
+        # of the spec decoding -- no reader, no buffers; an implementation answer that differs from it violates the Spec
+        _, ts, _ = run_bin(xm, ["tspec %s %s %s %s" % (a[1], a[2], a[5], " ".join(a[6:]))])
+        if ts and not ts[0].startswith("unsupported") and ts[0] != "bad-request" and ts[0] == model[i] and impl[i] != ts[0]:
+            viol += 1
+            if viol <= 5:
+                ctx.violation("divergence", {"request": reqs[i], "impl": impl[i], "model": model[i], "token_spec": ts[0],
+                                             "what": "a token operation's answer / position is not the specified function of the "
+                                                     "remaining characters (Spec04t.v): the implementation violates the Spec"})
+            continue
         _, so, _ = run_bin(xm, ["spec %s %s %s" % (a[1], a[2], a[5])])
         # Spec verdict on the implementation's answer: total characters delivered by all G/g ops must not exceed
         # the specified sequence and a final G must end where the spec ends
